@@ -3,12 +3,22 @@ package otp
 // C06 — OCRA validation accepts a string iff generation returns it for the same data.
 
 //verif:harness prop=C06 name=iff
-//verif:cases quick flags=2,3,6,10,31 src=0,1,2,3 hash=0 digits=6 bad=0
+//verif:cases quick flags=2,3,6,10,31 src=0,1,2,3 hash=0 digits=6,10 bad=0
 //verif:cases thorough flags=0..31 src=0,1,2,3 hash=0,2 digits=4,10 bad=0
 //verif:replace github.com/ja7ad/otp.DecodeSecret=verifStub_DecodeSecret
 //verif:opt hmac=fresh unwind=1000 maxpaths=3000
 func verifH_C06_iff() {
-	verifC06(verifCase("flags"), verifCase("src"), verifCase("hash"), verifCase("digits"))
+	verifC06(verifCase("flags"), verifCase("src"), verifCase("hash"), verifCase("digits"), 10)
+}
+
+// the same with an empty key (secret "" or only white space decodes to zero bytes)
+//
+//verif:harness prop=C06 name=emptykey
+//verif:cases quick flags=2,31 src=0,1,3 hash=0 digits=6
+//verif:replace github.com/ja7ad/otp.DecodeSecret=verifStub_DecodeSecret
+//verif:opt hmac=fresh unwind=1000 maxpaths=3000
+func verifH_C06_emptykey() {
+	verifC06(verifCase("flags"), verifCase("src"), verifCase("hash"), verifCase("digits"), 0)
 }
 
 // invalid suites (digits / hash out of range, negative digits): validation returns (false, err)
@@ -22,13 +32,13 @@ func verifH_C06_invalid() {
 	if verifCase("hash") <= 2 && verifCase("digits") >= 4 && verifCase("digits") <= 10 {
 		verifSkipCase()
 	}
-	verifC06(verifCase("flags"), verifCase("src"), verifCase("hash"), verifCase("digits"))
+	verifC06(verifCase("flags"), verifCase("src"), verifCase("hash"), verifCase("digits"), 10)
 }
 
-func verifC06(flags, src, hash, digits int) {
+func verifC06(flags, src, hash, digits, keylen int) {
 	cfg := verifFlagsConfig(flags, 20, hash, digits, 1, 1)
 	in := verifSymInput(0)
-	key := verifBytes("key", 10)
+	key := verifBytes("key", keylen)
 	fails := verifBool("decode_fails")
 	secret := verifSecretFor(key, fails)
 	var s Suite = cfg
